@@ -22,6 +22,7 @@ LEVEL_TEXT = (
     "the lattice slices, sampled beyond."
     ' Generated inputs include crisp layers with integer element types for the selecting operators, and a whole-model part runs fuzzy-logic operators over shared inputs through Program.run.'
 )
+LEVEL_TEXT += ' Added later: weight vectors that add up to nearly one or nearly a round number; the model slice inherits the C02 histories (rerun after a failed attempt, twin programs from shared arguments).'
 LEVEL_NOTE = "Trusts numpy and the reference functions in vcheck/ref; inputs restricted to the operators' declared fuzzy domain."
 RULE = (
     "Cases: (a) exhaustive lattice: for n=1..3 (quick: 1..2 plus a slice of 3) every combination of the 10 symbols "
